@@ -186,16 +186,17 @@ func (e *poolEnv) waitKilled(addr string) {
 }
 
 type pcall struct {
-	k       int
-	addr    string
-	form    string
-	done    bool
-	err     error
-	reply   []byte
-	connID  int
-	doneAt  int
-	carried bool
-	t0, t1  time.Time
+	k        int
+	addr     string
+	form     string
+	done     bool
+	err      error
+	reply    []byte
+	connID   int
+	doneAt   int
+	carried  bool
+	nCarried int // how many times the request of this call reached a server
+	t0, t1   time.Time
 }
 
 type poolEnv struct {
@@ -223,6 +224,7 @@ type poolEnv struct {
 func (e *poolEnv) noteCarried(k int, c *pconn) {
 	e.mu.Lock()
 	if pc := e.calls[k]; pc != nil {
+		pc.nCarried++
 		pc.connID, pc.carried = c.id, true
 	}
 	e.mu.Unlock()
@@ -458,7 +460,7 @@ func runPoolScenario(sc poolScenario) *poolResult {
 		switch f[0] {
 		case "idle":
 			nominal = map[string]time.Duration{"short": poolShort, "medium": poolMedium, "long": poolLong}[f[1]]
-		case "call", "go", "rt", "ping", "stream", "long", "callnb", "finish", "kill":
+		case "call", "go", "rt", "ping", "stream", "long", "callnb", "finish", "kill", "bounce":
 			nominal = poolTick // syncTick: one housekeeping period, which the model counts too
 		}
 		switch f[0] {
@@ -495,6 +497,17 @@ func runPoolScenario(sc poolScenario) *poolResult {
 			e.syncTick()
 			e.mu.Lock()
 			e.up[f[1]] = false
+			conns := append([]*pconn(nil), e.conns...)
+			e.mu.Unlock()
+			for _, c := range conns {
+				if c.addr == f[1] {
+					c.kill()
+				}
+			}
+		case "bounce":
+			// the server drops every connection of the address but stays reachable
+			e.syncTick()
+			e.mu.Lock()
 			conns := append([]*pconn(nil), e.conns...)
 			e.mu.Unlock()
 			for _, c := range conns {
@@ -548,7 +561,7 @@ func runPoolScenario(sc poolScenario) *poolResult {
 			}
 			time.Sleep(200 * time.Microsecond)
 		}
-		if f[0] == "kill" {
+		if f[0] == "kill" || f[0] == "bounce" {
 			// the connection must have seen the end of its stream before the next action
 			e.waitKilled(f[1])
 		}
@@ -610,6 +623,27 @@ func (e *poolEnv) finish() {
 	gate.SettleAllowSleep(time.Second)
 }
 
+// bracket returns the text between key and the next ']' of an observation line.
+func bracket(obs, key string) string {
+	i := strings.Index(obs, key)
+	if i < 0 {
+		return ""
+	}
+	j := strings.Index(obs[i:], "]")
+	if j < 0 {
+		return ""
+	}
+	return obs[i+len(key) : i+j]
+}
+
+func parseBracket(obs, key string) []string {
+	b := bracket(obs, key)
+	if b == "" {
+		return nil
+	}
+	return strings.Split(b, ",")
+}
+
 // countPooled: connections listed for addr in the active and idle parts of an observation.
 func countPooled(obs, addr string) int {
 	n := 0
@@ -663,6 +697,33 @@ func checkPool(sc poolScenario, r *poolResult) []connVerdict {
 			xs := strings.Split(strings.SplitN(part, ":", 2)[1], ",")
 			if len(xs) > maxI {
 				add("C13", "idle-bounded", "C13/idle-exceeds-limit", fmt.Sprintf("idle queue %s exceeds the limit %d", part, maxI))
+			}
+		}
+	}
+	// C04: the Transport never sends a call twice
+	for k, c := range e.calls {
+		if c.nCarried > 1 {
+			add("C04", "never-retries", "C04/transport-resent/"+c.form, fmt.Sprintf("the request of call %d (%s to %s) reached a server %d times", k, c.form, c.addr, c.nCarried))
+		}
+	}
+	// C15 / C20: a socket that is open belongs to a pooled connection (nothing is dropped from the pool without being closed)
+	for i, ob := range r.obs {
+		open := parseBracket(ob, "open=[")
+		pooled := map[string]bool{}
+		for _, key := range []string{"active=[", "idle=["} {
+			for _, part := range strings.Fields(bracket(ob, key)) {
+				kv := strings.SplitN(part, ":", 2)
+				if len(kv) == 2 {
+					for _, id := range strings.Split(kv[1], ",") {
+						pooled[strings.TrimSuffix(id, "x")] = true
+					}
+				}
+			}
+		}
+		for _, id := range open {
+			if id != "" && !pooled[id] && !strings.Contains(strings.Join(sc.Actions, " "), "holdclose") {
+				add("C15", "nothing-leaks-from-the-pool", "C15/open-but-not-pooled", fmt.Sprintf("after action %d (%s) connection %s is still open but is neither in an active list nor in an idle queue", i, r.actions[i], id))
+				break
 			}
 		}
 	}
@@ -748,6 +809,8 @@ func poolCorpus() []poolScenario {
 	mk("stale-together-limits", 2, 2, "long A 1", "long A 2", "call B 3", "finish 1", "finish 2", "idle medium", "long B 4", "long B 5", "long A 6", "long A 7", "finish 4", "finish 5", "finish 6", "finish 7", "idle long")
 	mk("stream-sees-the-dead-connection", 1, 1, "call A 1", "kill A", "stream A 2", "stream A 3", "revive A", "stream A 4", "call A 5", "idle long")
 	mk("stream-after-restart", 2, 2, "stream A 1", "kill A", "revive A", "stream A 2", "stream A 3", "stream A 4", "idle medium", "stream A 5", "idle long")
+	mk("connection-lost-under-a-call", 2, 2, "long A 1", "bounce A", "call A 2", "long A 3", "long B 4", "bounce A", "finish 4", "call A 5", "idle long")
+	mk("retirement-with-a-full-idle-queue", 4, 1, "long A 1", "long A 2", "long A 3", "long A 4", "finish 1", "finish 2", "finish 3", "finish 4", "idle medium", "idle long", "close")
 	mk("multi-addr", 2, 1, "call A 1", "call B 2", "call C 3", "long A 4", "long A 5", "long B 6", "kill B", "call B 7", "finish 4", "finish 5", "idle medium", "revive B", "call B 8", "call A 9", "idle long", "close", "close")
 	mk("close-gated-replacement", 1, 1, "call A 1", "kill A", "revive A", "holdclose", "callnb A 2", "callnb A 3", "relclose", "call A 4")
 	mk("forms", 2, 2, "go A 1", "rt A 2", "ping A 3", "call A 4", "kill A", "go A 5", "rt A 6", "ping A 7", "revive A", "go A 8", "rt A 9", "ping A 10", "call A 11")
@@ -779,8 +842,10 @@ func genPoolScenario(r *prng.R) poolScenario {
 				sc.Actions = append(sc.Actions, fmt.Sprintf("finish %d", held[j]))
 				held = append(held[:j], held[j+1:]...)
 			}
-		case x < 68:
+		case x < 65:
 			sc.Actions = append(sc.Actions, "kill "+a)
+		case x < 68:
+			sc.Actions = append(sc.Actions, "bounce "+a)
 		case x < 76:
 			sc.Actions = append(sc.Actions, "revive "+a)
 		case x < 88:
